@@ -256,7 +256,7 @@ func (f faultyMember) DeleteTag(ctx context.Context, repo string, t string) erro
 
 func c15Config(u *universe) alphabetConfig {
 	return alphabetConfig{Repos: u.Repos, BadRepo: true, Chunked: true, MaxUploads: 1, MaxUpload: 3,
-		Manifests: []int{0, 1, 2}, Blobs: []int{1, 2}, Deletes: true, Mounts: true, BadPushes: true, UntaggedToo: true, Tags: []string{"t"}, ReadsOp: true}
+		Manifests: []int{0, 1, 2}, Blobs: []int{1, 2}, Deletes: true, Mounts: true, BadPushes: true, UntaggedToo: true, Tags: []string{"t"}, ReadsOp: true, SelfMounts: true}
 }
 
 func c15MemberDump(m *ocimem.Registry) string {
